@@ -299,6 +299,11 @@ def execute(sc, ctx):
                 ants[op["id"]] = ant
                 logs[op["id"]] = W.RequestLog(ant, ctx)
                 dig, fb, _ = W.build_elements(op["el"])
+                if op.get("template_estimate"):
+                    # the channelised-noise estimate is seeded on the template filterbank handed to from_data
+                    te = op["template_estimate"]
+                    fb.estimate_channelized_stds(factor=te["factor"], seed=te["seed"])
+                    ctx.hit("estimate_seeded_on_template")
                 seams.listing = op.get("listing", "sorted")
                 try:
                     be = sv.RawVoltageBackend.from_data(seams.path(op["in_stem"]), ant, digitizer=dig, filterbank=fb,
